@@ -7,6 +7,7 @@ import JV.Drv.Pointer
 import JV.Drv.Patch
 import JV.Drv.Number
 import JV.Drv.JsonText
+import JV.Drv.Source
 open JV Drv
 
 def dispatch (line : String) : String :=
@@ -17,6 +18,7 @@ def dispatch (line : String) : String :=
   | "num" :: rest => numberLine rest
   | "big" :: rest => bigLine rest
   | "jt" :: rest => jsonTextLine rest
+  | "src" :: rest => sourceLine rest
   | [] => ""
   | _ => "bad-op"
 
